@@ -170,8 +170,10 @@ class LogU:
     def __sub__(self, x):
         return LogU(self.sl, self.a - float(x))
 
+    # comparisons return numpy booleans, as the comparison of the real float64 slice variable with a float64 energy does
+    # (numpy booleans add as logical OR, Python booleans as integers: code relying on either shows under the real types)
     def __le__(self, x):  # log u + a <= x  <=>  u <= exp(x - a)
-        return self.sl.decide_le(_exp(float(x) - self.a))
+        return np.bool_(self.sl.decide_le(_exp(float(x) - self.a)))
 
     def __lt__(self, x):
         return self.__le__(x)
@@ -179,8 +181,8 @@ class LogU:
     def __gt__(self, x):
         x = float(x) - self.a
         if x != x:
-            return False
-        return not self.sl.decide_le(_exp(x))
+            return np.bool_(False)
+        return np.bool_(not self.sl.decide_le(_exp(x)))
 
     def __ge__(self, x):
         return self.__gt__(x)
